@@ -1,7 +1,7 @@
 (** C08 — bridge: for select_spendable_notes(AtLeast) cases inside the theorems' domain, agreement
     of the implementation with the model implies the property on the implementation's outcome. *)
 From V.Lib Require Import Base.
-From V.C08 Require Import Sql Model Spec Corr Wf ProofsSql ProofsSel ProofsProp ProofsGreedy.
+From V.C08 Require Import Sql Model ModelT ModelP Spec Corr Wf ProofsSql ProofsSel ProofsProp ProofsT ProofsGreedy.
 From V.Gen Require Import C08SqlPred.
 From Coq Require Import ZifyBool Permutation FinFun.
 Local Open Scope Z_scope.
@@ -231,134 +231,6 @@ Proof.
   repeat split; try assumption. eapply confirmed_mono; eassumption.
 Qed.
 
-(** The data source's anchor under the bucketed policy is the boundary itself (a checkpoint exists
-    there for every tree it consults). *)
-Definition canon_sel_at_boundary (c : case) : bool :=
-  match c with
-  | CPropose _ _ _ _ _ _ _ _ _ _ (Some ci) _ _ =>
-      (0 <? c_interval ci)
-      && match c_sel_anchor ci with Some sa => sa =? c_boundary ci | None => true end
-  | _ => true
-  end.
-
-Lemma greedy_no_panic change db e acct pay prefs pol lp iw sa single fuel : forall sel prior req excl,
-  greedy change db e acct pay prefs pol lp iw sa single fuel sel prior req excl <> Panic.
-Proof.
-  induction fuel as [|f IH]; intros sel prior req excl; cbn; [discriminate|].
-  destruct (change sa _); try discriminate.
-  - unfold step_from_parts. destruct (iw && _ && _); [discriminate|]. destruct (_ =? _); discriminate.
-  - destruct (_ <=? prior); [discriminate | apply IH].
-  - destruct (_ <=? prior); [discriminate | apply IH].
-Qed.
-
-Lemma finish_no_panic db e tip lock s : finish db e tip lock s <> Panic.
-Proof.
-  unfold finish, multi_step. destruct (nodup_refs _); [|discriminate].
-  destruct lock as [[o fb]|]; [destruct (lock_outputs _ _ _ _ _)|]; discriminate.
-Qed.
-
-Lemma propose_transfer_no_panic change fuel db e tip acct pay sp oo permitted pol lp lock canon :
-  propose_transfer change fuel db e tip acct pay sp oo permitted pol lp lock canon <> Panic.
-Proof.
-  unfold propose_transfer. destruct (e_anchor e) as [anchor|]; [|discriminate]. cbv zeta.
-  assert (Hord : forall iw,
-    match propose_transaction change db e acct pay (pool_preference iw oo permitted) pol lp iw anchor false fuel with
-    | Ok s => finish db e tip lock s | Err x => Err x | Panic => Panic end <> Panic).
-  { intros iw. destruct (propose_transaction change db e acct pay (pool_preference iw oo permitted) pol lp iw anchor false fuel) eqn:E;
-      [apply finish_no_panic | discriminate | exfalso; eapply greedy_no_panic; exact E]. }
-  destruct canon as [ci|]; [|apply Hord].
-  destruct (sp && is_canonical_denomination pay && existsb (pool_eqb Orchard) permitted); [|apply Hord].
-  destruct (bucketed pol (c_interval ci) (e_target e) (c_activation ci)) as [bp|]; [|apply Hord].
-  destruct (negb (ssub (e_target e) (p_trusted bp) =? c_boundary ci)); [discriminate|].
-  destruct (c_computable ci); [|apply Hord].
-  destruct (propose_transaction change db (Env (e_target e) (c_sel_anchor ci) (e_ranges e)) acct pay
-              (pool_preference true oo [Orchard]) bp lp true (ssub (e_target e) (p_trusted bp)) true fuel) as [s|x|] eqn:E2.
-  - destruct (is_canonical_crossing ci sp oo s); [apply finish_no_panic | apply Hord].
-  - destruct x; try discriminate; apply Hord.
-  - exfalso. eapply greedy_no_panic. exact E2.
-Qed.
-
-Theorem bridge_propose db e acct pay sp oo permitted pol lp lock canon oracle obs :
-  wf_case (CPropose db e acct pay sp oo permitted pol lp lock canon oracle obs) = true ->
-  canon_sel_at_boundary (CPropose db e acct pay sp oo permitted pol lp lock canon oracle obs) = true ->
-  run_case (CPropose db e acct pay sp oo permitted pol lp lock canon oracle obs) = true ->
-  prop_case (CPropose db e acct pay sp oo permitted pol lp lock canon oracle obs) = true.
-Proof.
-  intros Hwf Hcs Hrun. cbn [wf_case] in Hwf. rewrite !andb_true_iff in Hwf.
-  destruct Hwf as [[[[Hdb Hpol] _] _] _]. unfold wf_db in Hdb. apply andb_true_iff in Hdb. destruct Hdb as [Hnd _].
-  apply nodup_refs_spec in Hnd. change (refs_of db) with (rrefs db) in Hnd.
-  unfold wf_policy in Hpol. apply andb_true_iff in Hpol. destruct Hpol as [Ht Hu].
-  assert (Ht' : 1 <= p_trusted pol) by lia. assert (Hu' : p_trusted pol <= p_untrusted pol) by lia.
-  cbn [run_case] in Hrun. unfold prop_case; cbn [prop_case_s prop_case_t]; rewrite andb_true_r.
-  destruct (propose_transfer (oracle_fn oracle) FUEL db e (Some (e_target e - 1)) acct pay sp oo permitted pol lp lock canon)
-    as [steps_m|x|] eqn:E; destruct obs as [steps_o|y|]; cbn [outcome_eqb] in Hrun; try discriminate; try reflexivity;
-    [|exfalso; eapply propose_transfer_no_panic; exact E].
-  assert (Hci : forall ci, canon = Some ci -> 0 < c_interval ci).
-  { intros ci ->. cbn in Hcs. apply andb_true_iff in Hcs. lia. }
-  destruct (propose_transfer_sound _ _ _ _ _ _ _ _ _ _ _ _ _ _ _ Hnd Ht' Hu' Hci E) as [Hndm Horig].
-  (* the model returns exactly one step *)
-  assert (exists sm, steps_m = [sm]) as [sm ->].
-  { unfold propose_transfer in E. destruct (e_anchor e); [|discriminate].
-    assert (Hfin : forall s r, finish db e (Some (e_target e - 1)) lock s = Ok r -> exists sm, r = [sm])
-      by (intros s r Hf; apply finish_steps in Hf; destruct Hf as [-> _]; eexists; reflexivity).
-    repeat match type of E with
-    | match ?X with _ => _ end = _ => destruct X eqn:?; try discriminate; try (eapply Hfin; eassumption)
-    end. }
-  destruct steps_o as [|so [|? ?]]; cbn [list_eqb] in Hrun; try discriminate;
-    [|rewrite andb_false_r in Hrun; discriminate].
-  rewrite andb_true_r in Hrun. unfold step_eqb in Hrun. rewrite !andb_true_iff in Hrun.
-  destruct Hrun as [[[[[[Hin Hval] Htin] Hpay] Hch] Hfee] Hanc].
-  apply refs_eqb_eq in Hin.
-  assert (Hperm : Permutation (s_inputs so) (s_inputs sm)).
-  { rewrite <- (sort_refs_perm (s_inputs so)), <- (sort_refs_perm (s_inputs sm)), Hin. reflexivity. }
-  assert (Hchs : s_changes sm = s_changes so).
-  { apply (list_eqb_spec (fun x y => cpool_eqb (fst x) (fst y) && (snd x =? snd y))); [|exact Hch].
-    intros [c1 v1] [c2 v2]. cbn. rewrite andb_true_iff.
-    split; [intros [H1 H2]; f_equal; [|lia]; destruct c1, c2; cbn in H1; try discriminate; [apply pool_eqb_eq in H1; congruence | reflexivity]
-           | intros H; inversion H; subst; split; [destruct c2; cbn; [apply pool_eqb_eq; reflexivity | reflexivity] | lia]]. }
-  assert (Hanc' : s_anchor sm = s_anchor so) by (apply (option_eqb_spec Z.eqb Z.eqb_eq); exact Hanc).
-  (* what the theorem says about the model's step, at the anchor it binds and the caller's policy *)
-  assert (Hm : exists a inputs,
-     s_anchor sm = Some a /\ s_inputs sm = rrefs inputs /\ NoDup (rrefs inputs)
-     /\ s_in_value sm = sum_values inputs /\ s_tins sm = [] /\ s_pay sm = pay /\ step_balanced sm = true
-     /\ forall r, In r inputs -> In r db /\ In (r_pool r) permitted
-          /\ spendable (SC acct (r_pool r) (e_target e) a (tip_unscanned e (r_pool r) a) pol
-                           (Some (overridable (LFPolicy lp)))) r = true).
-  { destruct (Horig sm (or_introl eq_refl)) as [anchor Ea Hok | ci bp Ec Eb Ebd Hperm' Hok];
-      destruct Hok as [inputs [H1 [H2 [H3 [H4 [H5 [[G1 G2] H6]]]]]]].
-    - exists anchor, inputs. repeat (split; [assumption|]). intros r Hr. destruct (G1 r Hr) as [Hdbr Hb].
-      split; [exact Hdbr|]. unfold okrowb in Hb. rewrite Ea in Hb. apply andb_true_iff in Hb. destruct Hb as [Hp Hs].
-      split; [|exact Hs]. apply existsb_exists in Hp. destruct Hp as [q [Hq Eq]]. apply pool_eqb_eq in Eq. subst q.
-      eapply pool_preference_permitted; exact Hq.
-    - exists (c_boundary ci), inputs. repeat (split; [assumption|]). intros r Hr. destruct (G1 r Hr) as [Hdbr Hb].
-      split; [exact Hdbr|]. unfold okrowb in Hb. cbn [e_anchor e_target] in Hb.
-      destruct (c_sel_anchor ci) as [sa|] eqn:Esa; [|discriminate].
-      subst canon. cbn in Hcs. rewrite Esa in Hcs. apply andb_true_iff in Hcs. destruct Hcs as [_ Hcs].
-      assert (sa = c_boundary ci) by lia. subst sa.
-      apply andb_true_iff in Hb. destruct Hb as [Hp Hs].
-      apply existsb_exists in Hp. destruct Hp as [q [Hq Eq]]. apply pool_eqb_eq in Eq. subst q.
-      apply pool_preference_permitted in Hq. destruct Hq as [Hq|[]].
-      split; [rewrite <- Hq; exact Hperm'|].
-      destruct (bucketed_spec _ _ _ _ _ (Hci ci eq_refl) Ht' Hu' Eb) as [Hb1 [Hb2 _]].
-      eapply spendable_policy_mono; [exact Hb1 | exact Hb2 |]. exact Hs. }
-  destruct Hm as [a [inputs [Ha [Hi [Hni [Hv [Hti [Hp [Hbal Hrows]]]]]]]]].
-  assert (Hin_so : forall x, In x (s_inputs so) -> exists r, In r inputs /\ x = (r_pool r, r_id r)).
-  { intros x Hx. apply (Permutation_in _ Hperm) in Hx. rewrite Hi in Hx. apply in_rrefs in Hx. exact Hx. }
-  cbn [map concat]. rewrite app_nil_r. cbn [forallb fold_right]. rewrite !andb_true_r.
-  rewrite !andb_true_iff. split; [split; [split|]|].
-  - apply nodup_refs_spec. eapply Permutation_NoDup; [symmetry; exact Hperm|]. rewrite Hi. exact Hni.
-  - apply forallb_forall. intros x Hx. destruct (Hin_so x Hx) as [r [Hr ->]]. cbn [fst].
-    apply existsb_exists. exists (r_pool r). split; [apply Hrows; exact Hr | apply pool_eqb_eq; reflexivity].
-  - rewrite <- Hanc', Ha. split; [split; [split|]|].
-    + unfold all_spendable. apply forallb_forall. intros x Hx. destruct (Hin_so x Hx) as [r [Hr ->]].
-      destruct (Hrows r Hr) as [Hdbr [_ Hs]]. rewrite (find_row_unique db r Hnd Hdbr). exact Hs.
-    + rewrite (value_of_refs_perm db _ _ Hperm), Hi, value_of_rrefs; [lia | exact Hnd | intros r Hr; apply Hrows; exact Hr].
-    + rewrite Hti in Htin. cbn in Htin. destruct (s_tins so) as [|z0 t0]; [reflexivity|]. exfalso.
-      pose proof (sort_z_perm (z0 :: t0)) as Hp0.
-      destruct (sort_z (z0 :: t0)); [apply Permutation_nil in Hp0; discriminate | discriminate].
-    + unfold step_balanced, s_change in *. rewrite <- Hchs. lia.
-  - lia.
-Qed.
 
 (** ** transparent cases *)
 From V.C08 Require Import ModelT ProofsT.
@@ -504,3 +376,154 @@ Proof.
     destruct (find_utxo upost (u_id u)) as [u'|]; [|discriminate].
     unfold u_lock_agrees in Hu. rewrite !andb_true_iff in Hu. rewrite andb_true_iff. tauto.
 Qed.
+
+(** ** propose_transfer cases (continued: the bridge) *)
+Lemma greedy_no_panic change ton tg db e acct pay prefs pol lp iw sa single fuel : forall sel tins tdust ag prior req excl,
+  greedy change ton tg db e acct pay prefs pol lp iw sa single fuel sel tins tdust ag prior req excl <> Panic.
+Proof.
+  induction fuel as [|f IH]; intros sel tins tdust ag prior req excl; cbn [greedy]; [discriminate|].
+  destruct (change sa _ _); try discriminate.
+  - unfold step_from_parts. destruct (iw && _ && _); [discriminate|]. destruct (_ =? _); discriminate.
+  - destruct (ton && _); (match goal with |- (if ?c then _ else _) <> _ => destruct c end; [discriminate | apply IH]).
+  - match goal with |- (if ?c then _ else _) <> _ => destruct c end; [discriminate | apply IH].
+Qed.
+
+Lemma finish_no_panic db udb e tip lock s : finish db udb e tip lock s <> Panic.
+Proof.
+  unfold finish, multi_step. destruct (nodup_refs _); [|discriminate].
+  destruct lock as [[o fb]|]; [destruct (lock_outputs _ _ _ _ _); [destruct (lock_utxos_ok _ _ _ _)|]|]; discriminate.
+Qed.
+
+Lemma propose_transfer_no_panic change fuel db udb e tip acct pay sp oo permitted pol zc lp tspend lock canon :
+  propose_transfer change fuel db udb e tip acct pay sp oo permitted pol zc lp tspend lock canon <> Panic.
+Proof.
+  unfold propose_transfer. destruct (e_anchor e) as [anchor|]; [|discriminate]. cbv zeta.
+  assert (Hord : forall iw,
+    match propose_transaction change (match tspend with Some _ => true | None => false end)
+            (tgather_of udb acct (e_target e) pol zc lp tspend) db e acct pay (pool_preference iw oo permitted) pol lp iw anchor false fuel with
+    | Ok s => finish db udb e tip lock s | Err x => Err x | Panic => Panic end <> Panic).
+  { intros iw. destruct (propose_transaction _ _ _ _ _ _ _ _ _ _ _ _ _ _) eqn:E;
+      [apply finish_no_panic | discriminate | exfalso; eapply greedy_no_panic; exact E]. }
+  destruct canon as [ci|]; [|apply Hord].
+  destruct (sp && is_canonical_denomination pay && existsb (pool_eqb Orchard) permitted); [|apply Hord].
+  destruct (bucketed pol (c_interval ci) (e_target e) (c_activation ci)) as [bp|]; [|apply Hord].
+  destruct (negb (ssub (e_target e) (p_trusted bp) =? c_boundary ci)); [discriminate|].
+  destruct (c_computable ci); [|apply Hord].
+  destruct (propose_transaction change false (fun _ => []) db (Env (e_target e) (c_sel_anchor ci) (e_ranges e)) acct pay
+              (pool_preference true oo [Orchard]) bp lp true (ssub (e_target e) (p_trusted bp)) true fuel) as [s|x|] eqn:E2.
+  - destruct (is_canonical_crossing ci sp oo s); [apply finish_no_panic | apply Hord].
+  - destruct x; try discriminate; apply Hord.
+  - exfalso. eapply greedy_no_panic. exact E2.
+Qed.
+
+(** The data source's anchor under the bucketed policy is the boundary itself (a checkpoint exists
+    there for every tree it consults). *)
+Definition canon_sel_at_boundary (c : case) : bool :=
+  match c with
+  | CPropose _ _ _ _ _ _ _ _ _ _ _ _ _ (Some ci) _ _ =>
+      (0 <? c_interval ci)
+      && match c_sel_anchor ci with Some sa => sa =? c_boundary ci | None => true end
+  | _ => true
+  end.
+
+Theorem bridge_propose db udb e acct pay sp oo permitted pol zc lp tspend lock canon oracle obs :
+  wf_case (CPropose db udb e acct pay sp oo permitted pol zc lp tspend lock canon oracle obs) = true ->
+  canon_sel_at_boundary (CPropose db udb e acct pay sp oo permitted pol zc lp tspend lock canon oracle obs) = true ->
+  run_case (CPropose db udb e acct pay sp oo permitted pol zc lp tspend lock canon oracle obs) = true ->
+  prop_case (CPropose db udb e acct pay sp oo permitted pol zc lp tspend lock canon oracle obs) = true.
+Proof.
+  intros Hwf Hcs Hrun. cbn [wf_case] in Hwf. rewrite !andb_true_iff in Hwf.
+  destruct Hwf as [[[[[[Hdb Hpol] _] _] _] Hnu] _]. unfold wf_db in Hdb. apply andb_true_iff in Hdb. destruct Hdb as [Hnd _].
+  apply nodup_refs_spec in Hnd. change (refs_of db) with (rrefs db) in Hnd. apply nodup_z_spec in Hnu.
+  unfold wf_policy in Hpol. apply andb_true_iff in Hpol. destruct Hpol as [Ht Hu].
+  assert (Ht' : 1 <= p_trusted pol) by lia. assert (Hu' : p_trusted pol <= p_untrusted pol) by lia.
+  cbn [run_case] in Hrun. unfold prop_case; cbn [prop_case_s prop_case_t]; rewrite andb_true_r.
+  destruct (propose_transfer (oracle_fn oracle) FUEL db udb e (Some (e_target e - 1)) acct pay sp oo permitted pol zc lp tspend lock canon)
+    as [steps_m|x|] eqn:E; destruct obs as [steps_o|y|]; cbn [outcome_eqb] in Hrun; try discriminate; try reflexivity;
+    [|exfalso; eapply propose_transfer_no_panic; exact E].
+  assert (Hci : forall ci, canon = Some ci -> 0 < c_interval ci).
+  { intros ci ->. cbn in Hcs. apply andb_true_iff in Hcs. lia. }
+  destruct (propose_transfer_sound _ _ _ _ _ _ _ _ _ _ _ _ _ _ _ _ _ _ Hnd Hnu Ht' Hu' Hci E) as [Hndm Horig].
+  (* the model returns exactly one step *)
+  assert (exists sm, steps_m = [sm]) as [sm ->].
+  { unfold propose_transfer in E. destruct (e_anchor e); [|discriminate].
+    assert (Hfin : forall s r, finish db udb e (Some (e_target e - 1)) lock s = Ok r -> exists sm, r = [sm])
+      by (intros s r Hf; apply finish_steps in Hf; destruct Hf as [-> _]; eexists; reflexivity).
+    repeat match type of E with
+    | match ?X with _ => _ end = _ => destruct X eqn:?; try discriminate; try (eapply Hfin; eassumption)
+    end. }
+  destruct steps_o as [|so [|? ?]]; cbn [list_eqb] in Hrun; try discriminate;
+    [|rewrite andb_false_r in Hrun; discriminate].
+  rewrite andb_true_r in Hrun. unfold step_eqb in Hrun. rewrite !andb_true_iff in Hrun.
+  destruct Hrun as [[[[[[Hin Hval] Htin] Hpay] Hch] Hfee] Hanc].
+  apply refs_eqb_eq in Hin.
+  assert (Hperm : Permutation (s_inputs so) (s_inputs sm)).
+  { rewrite <- (sort_refs_perm (s_inputs so)), <- (sort_refs_perm (s_inputs sm)), Hin. reflexivity. }
+  apply list_eqb_Z_eq in Htin.
+  assert (Htperm : Permutation (s_tins so) (s_tins sm)).
+  { rewrite <- (sort_z_perm (s_tins so)), <- (sort_z_perm (s_tins sm)), Htin. reflexivity. }
+  assert (Hchs : s_changes sm = s_changes so).
+  { apply (list_eqb_spec (fun x y => cpool_eqb (fst x) (fst y) && (snd x =? snd y))); [|exact Hch].
+    intros [c1 v1] [c2 v2]. cbn. rewrite andb_true_iff.
+    split; [intros [H1 H2]; f_equal; [|lia]; destruct c1, c2; cbn in H1; try discriminate; [apply pool_eqb_eq in H1; congruence | reflexivity]
+           | intros H; inversion H; subst; split; [destruct c2; cbn; [apply pool_eqb_eq; reflexivity | reflexivity] | lia]]. }
+  assert (Hanc' : s_anchor sm = s_anchor so) by (apply (option_eqb_spec Z.eqb Z.eqb_eq); exact Hanc).
+  (* what the theorem says about the model's step, at the anchor it binds and the caller's policy *)
+  assert (Hm : exists a inputs tins,
+     s_anchor sm = Some a /\ s_inputs sm = rrefs inputs /\ NoDup (rrefs inputs)
+     /\ s_tins sm = map u_id tins /\ NoDup (map u_id tins)
+     /\ s_in_value sm = sum_utxos tins + sum_values inputs /\ s_pay sm = pay /\ step_balanced sm = true
+     /\ (forall r, In r inputs -> In r db /\ In (r_pool r) permitted
+          /\ spendable (SC acct (r_pool r) (e_target e) a (tip_unscanned e (r_pool r) a) pol
+                           (Some (overridable (LFPolicy lp)))) r = true)
+     /\ (forall u, In u tins -> In u udb /\ exists allow, tspend = Some allow
+          /\ utxo_spendable_acct (e_target e) (minconf pol zc) CbNon acct allow (Some (overridable (LFPolicy lp))) u = true)).
+  { destruct (Horig sm (or_introl eq_refl)) as [anchor Ea Hok | ci bp Ec Eb Ebd Hperm' Hok];
+      destruct Hok as [inputs [tins [H1 [H2 [H3 [H4 [H5 [[G1 G2] [[T1 T2] H6]]]]]]]]].
+    - exists anchor, inputs, tins. repeat (split; [assumption|]). split.
+      + intros r Hr. destruct (G1 r Hr) as [Hdbr Hb].
+        split; [exact Hdbr|]. unfold okrowb in Hb. rewrite Ea in Hb. apply andb_true_iff in Hb. destruct Hb as [Hp Hs].
+        split; [|exact Hs]. apply existsb_exists in Hp. destruct Hp as [q [Hq Eq]]. apply pool_eqb_eq in Eq. subst q.
+        eapply pool_preference_permitted; exact Hq.
+      + intros u Hu0. destruct (T1 u Hu0) as [Hon [t Hg]]. unfold tgather_of in Hg.
+        destruct tspend as [allow|]; [|discriminate].
+        apply select_transparent_sound in Hg. destruct Hg as [Hdbu Hsp].
+        split; [exact Hdbu|]. exists allow. split; [reflexivity | exact Hsp].
+    - assert (tins = []) as ->.
+      { destruct tins as [|u t]; [reflexivity|]. destruct (T1 u (or_introl eq_refl)) as [Hon _]. discriminate. }
+      exists (c_boundary ci), inputs, (@nil utxo_row). repeat (split; [assumption|]). split; [|intros u []].
+      intros r Hr. destruct (G1 r Hr) as [Hdbr Hb].
+      split; [exact Hdbr|]. unfold okrowb in Hb. cbn [e_anchor e_target] in Hb.
+      destruct (c_sel_anchor ci) as [sa|] eqn:Esa; [|discriminate].
+      subst canon. cbn in Hcs. rewrite Esa in Hcs. apply andb_true_iff in Hcs. destruct Hcs as [_ Hcs].
+      assert (sa = c_boundary ci) by lia. subst sa.
+      apply andb_true_iff in Hb. destruct Hb as [Hp Hs].
+      apply existsb_exists in Hp. destruct Hp as [q [Hq Eq]]. apply pool_eqb_eq in Eq. subst q.
+      apply pool_preference_permitted in Hq. destruct Hq as [Hq|[]].
+      split; [rewrite <- Hq; exact Hperm'|].
+      destruct (bucketed_spec _ _ _ _ _ (Hci ci eq_refl) Ht' Hu' Eb) as [Hb1 [Hb2 _]].
+      eapply spendable_policy_mono; [exact Hb1 | exact Hb2 |]. exact Hs. }
+  destruct Hm as [a [inputs [tins [Ha [Hi [Hni [Hti [Hnti [Hv [Hp [Hbal [Hrows Htrows]]]]]]]]]]]].
+  assert (Hin_so : forall x, In x (s_inputs so) -> exists r, In r inputs /\ x = (r_pool r, r_id r)).
+  { intros x Hx. apply (Permutation_in _ Hperm) in Hx. rewrite Hi in Hx. apply in_rrefs in Hx. exact Hx. }
+  assert (Htin_so : forall i, In i (s_tins so) -> exists u, In u tins /\ u_id u = i).
+  { intros i Hi0. apply (Permutation_in _ Htperm) in Hi0. rewrite Hti in Hi0. apply in_map_iff in Hi0.
+    destruct Hi0 as [u [Hu0 Hu1]]. exists u. split; assumption. }
+  cbn [map concat]. rewrite !app_nil_r. cbn [forallb fold_right]. rewrite !andb_true_r.
+  rewrite !andb_true_iff. split; [split; [split; [split; [split|]|]|]|].
+  - apply nodup_refs_spec. eapply Permutation_NoDup; [symmetry; exact Hperm|]. rewrite Hi. exact Hni.
+  - apply nodup_z_spec. eapply Permutation_NoDup; [symmetry; exact Htperm|]. rewrite Hti. exact Hnti.
+  - apply forallb_forall. intros i Hi0. destruct (Htin_so i Hi0) as [u [Hu0 <-]].
+    destruct (Htrows u Hu0) as [Hdbu [allow [-> Hsp]]]. rewrite (find_utxo_unique udb u Hnu Hdbu). exact Hsp.
+  - apply forallb_forall. intros x Hx. destruct (Hin_so x Hx) as [r [Hr ->]]. cbn [fst].
+    apply existsb_exists. exists (r_pool r). split; [apply Hrows; exact Hr | apply pool_eqb_eq; reflexivity].
+  - rewrite <- Hanc', Ha. split; [split|].
+    + unfold all_spendable. apply forallb_forall. intros x Hx. destruct (Hin_so x Hx) as [r [Hr ->]].
+      destruct (Hrows r Hr) as [Hdbr [_ Hs]]. rewrite (find_row_unique db r Hnd Hdbr). exact Hs.
+    + rewrite (value_of_refs_perm db _ _ Hperm), Hi, value_of_rrefs by (try exact Hnd; intros r Hr; apply Hrows; exact Hr).
+      rewrite (fold_ids_perm udb _ _ Htperm), Hti, value_of_utxo_ids by (try exact Hnu; intros u Hu0; apply Htrows; exact Hu0).
+      lia.
+    + unfold step_balanced, s_change in *. rewrite <- Hchs. lia.
+  - lia.
+Qed.
+
